@@ -32,7 +32,10 @@ Mask(bit) == CASE bit % 8 = 0 -> 128 [] bit % 8 = 1 -> 64 [] bit % 8 = 2 -> 32 [
 Flip(L, bit, salt) == LET bi == (bit \div 8) + 1 IN
     [i \in 1..Len(L) |-> IF i = bi THEN L[i] ^^ Mask(bit)
                           ELSE IF i > bi THEN (L[i] + salt) % 256 ELSE L[i]]
-K32Keys == {Flip(L32, b, s) : b \in {0, 1, 7, 8, 9, 100, 254}, s \in {0, 3}} \cup {L32, Flip(L32, 255, 0)}
+\* shared-prefix lengths on both sides of every byte, 8-byte-word and half boundary (a word-wise LeadingZeros or
+\* comparison must agree with the bit-wise one there), each with two different tails
+K32Keys == {Flip(L32, b, s) : b \in {0, 1, 7, 8, 9, 20, 63, 64, 65, 70, 100, 127, 128, 130, 192, 254}, s \in {0, 3}}
+           \cup {L32, Flip(L32, 255, 0)}
 K32Queries == {L32, SubSeq(L32, 1, 1), SubSeq(L32, 1, 2), <<>>, Flip(L32, 0, 5), Flip(L32, 8, 1),
                Flip(L32, 100, 0), L32 \o <<7>>, SubSeq(Flip(L32, 9, 0), 1, 3)}
 K32Configs == {<<4, 0, {}>>, <<6, 0, {}>>, <<9, 0, {}>>}
